@@ -40,7 +40,7 @@ func init() {
 	fw.Register(&fw.Property{
 		ID:    "C07",
 		Level: "exploration",
-		Rule: "one case = generated table + points + memory/disk split, then N (asOf, until) pairs: absolute/relative, aligned/unaligned, inside/outside/straddling the data, optionally with period(P) and a dim subset; " +
+		Rule: "one case = generated table + points + memory/disk split, then N (asOf, until) pairs: absolute, relative to the clock, or mixed per bound, aligned/unaligned, inside/outside/straddling the data, optionally with period(P) and a dim subset; " +
 			"oracle at native resolution = differential against the unbounded query with must-include (period wholly inside) / must-exclude (wholly outside) / straddler-free partition and exact value equality; " +
 			"with period(P) = bucket oracle re-anchored at the rounded until; default window checked against (now-retention, now]; non-trivial = the window cuts the stored data (excludes >=1 stored period and includes >=1)",
 		Assumptions: []string{"database clock = newest accepted timestamp (VirtualTime)", "periods straddling a window edge are don't-care", "a query asOf before the table's own asOf may be refused with an error"},
@@ -471,20 +471,25 @@ func runC07(c *fw.Ctx) {
 			}
 		}
 		rng := ""
-		relative := r.Intn(3) == 0 && (!hasAsOf || asOf.Before(d.now)) && (!hasUntil || until.Before(d.now))
+		// each bound is absolute or relative to the database clock on its own (so ranges also mix the two)
+		relAsOf := r.Intn(3) == 0 && hasAsOf && asOf.Before(d.now)
+		relUntil := hasUntil && until.Before(d.now) && ((relAsOf && r.Intn(3) != 0) || (!relAsOf && r.Intn(4) == 0))
 		if hasAsOf {
-			if relative {
+			if relAsOf {
 				rng += fmt.Sprintf(" ASOF '%v'", relDur(asOf.Sub(d.now)))
 			} else {
 				rng += fmt.Sprintf(" ASOF '%s'", dbh.FmtTime(asOf))
 			}
 		}
 		if hasUntil {
-			if relative {
+			if relUntil {
 				rng += fmt.Sprintf(" UNTIL '%v'", relDur(until.Sub(d.now)))
 			} else {
 				rng += fmt.Sprintf(" UNTIL '%s'", dbh.FmtTime(until))
 			}
+		}
+		if hasAsOf && hasUntil && relAsOf != relUntil {
+			c.Obs("ranges_mixing_absolute_and_relative", 1)
 		}
 		effAsOf, effUntil := d.asOf, d.until
 		if hasAsOf {
